@@ -32,6 +32,8 @@ CONSTANTS Slots, KVals, AVals, VVals, BadV, MaxBatch,
           WithSwitch,    \* BOOLEAN: explore settings switches through Create
           WithGet,       \* BOOLEAN: explore explicit Get steps (cache fill)
           WithHandle,    \* BOOLEAN: explore searches evaluated now and collected after later writes (C20)
+          WithFlushOne,  \* BOOLEAN: explore Flush(o) / FlushAndCommit(o) of single objects
+          WithDrop,      \* BOOLEAN: explore Drop (followed by Create) on the live handle
           Dev,           \* enabled deviations
           BatchFilter(_) \* which batches are explored (generation configs thin them out)
 
@@ -208,6 +210,34 @@ FlushAll(commit) ==
   /\ res' = "ok"
   /\ UNCHANGED <<loaded, midx, cfg, cache, slept, astore>>
 
+\* Flush(o) / FlushAndCommit(o): the ACCEPTED pending version of one object reaches disk; the object the caller
+\* passes only identifies it (its field values are whatever the caller's memory holds by now).  FlushAndCommit
+\* commits first, then flushes (as the code does).  An object that is not pending is left alone.
+\* Deviation FlushWritesArgument (the code as found): the caller's object itself is written - values that
+\* were never accepted, or an object that is not stored at all, reach the directory.
+FlushOne(u, commit) ==
+  /\ Ready /\ WithFlushOne /\ ~hnd.live /\ HSame /\ Log([op |-> "flushone", u |-> u, commit |-> commit]) /\ Started
+  /\ IF commit THEN Commit(midx, cfg) ELSE UNCHANGED <<didx, dcfg>>
+  /\ IF "FlushWritesArgument" \in Dev
+     THEN files' = Upd(files, u, ZeroObj) /\ pending' = Rem(pending, {u})
+     ELSE IF u \in DOMAIN pending
+          THEN files' = Upd(files, u, pending[u]) /\ pending' = Rem(pending, {u})
+          ELSE UNCHANGED <<files, pending>>
+  /\ res' = "ok"
+  /\ UNCHANGED <<loaded, midx, cfg, cache, slept, astore>>
+
+\* Drop() removes the whole database directory; the collection is then created again (Create with settings c)
+\* on the SAME handle.  Nothing of the dropped database survives: no file, no index entry, no cached object, no
+\* pending write, no constraint.  Deviation DropKeepsMemory (the code as found): only the directory is removed;
+\* the loaded schema with its index, the cache and the pending writes stay in memory, so the dropped objects are
+\* still counted, still reserve their unique values, and come back on disk with the next flush / commit.
+DropCreate(c) ==
+  /\ Ready /\ WithDrop /\ ~hnd.live /\ HSame /\ Log([op |-> "drop", cache |-> c.cache, async |-> c.async])
+  /\ files' = Empty /\ astore' = Empty /\ slept' = 0 /\ res' = "ok" /\ loaded' = TRUE
+  /\ IF "DropKeepsMemory" \in Dev
+     THEN /\ didx' = midx /\ dcfg' = cfg /\ UNCHANGED <<midx, cfg, cache, pending, started>>
+     ELSE /\ didx' = Empty /\ dcfg' = c /\ midx' = Empty /\ cfg' = c /\ cache' = Empty /\ pending' = Empty /\ started' = FALSE
+
 \* Close (flush every collection, commit every loaded schema), then a new handle
 Reopen(create) ==
   /\ Room /\ ~hnd.live /\ HSame /\ Log([op |-> "reopen", close |-> TRUE, create |-> create])
@@ -268,6 +298,8 @@ Next ==
   \/ \E op \in Ops, p \in AVals : DelSearch("A", op, p) \/ Eval("A", op, p)
   \/ Collect
   \/ \E c \in BOOLEAN : Reopen(c) \/ Abandon(c) \/ FlushAll(c)
+  \/ \E u \in Slots, c \in BOOLEAN : FlushOne(u, c)
+  \/ \E c \in Cfgs : DropCreate(c)
   \/ \E c \in Cfgs : Switch(c)
   \/ FlusherPoll \/ Tick
 
